@@ -431,6 +431,19 @@ def t12(repo, res, canon, logic):
     if canon.c(ga.get('schedule'), afr) != S:
         ok, why = False, ('the schedule handed to _generate_current_schedule is %s, not the one carried over from the last '
                           'round (%s): proposals that could not be submitted are forgotten' % (canon.c(ga.get('schedule'), afr), S))
+    # a local that starts as a copy of the verdict and is otherwise only rewritten under `if <that local>:`
+    # (verdict AND something more) can be true only when the verdict was: it speaks for it
+    from ..index import guard_stack as _gs
+    FINS = set(FINS)
+    for n_ in list(walk_no_nested(lp)):
+        if isinstance(n_, ast.Assign) and len(n_.targets) == 1 and isinstance(n_.targets[0], ast.Name) \
+                and isinstance(n_.value, ast.Name) and n_.value.id in FINS:
+            x_ = n_.targets[0].id
+            others = [m_ for m_ in walk_no_nested(a.node) if isinstance(m_, (ast.Assign, ast.AugAssign, ast.AnnAssign)) and m_ is not n_
+                      and any(isinstance(y, ast.Name) and y.id == x_ and isinstance(y.ctx, ast.Store) for y in ast.walk(m_))]
+            if all(any(g_[0] == 'if' and isinstance(g_[1], ast.Name) and g_[1].id == x_ and g_[2] is True
+                       for g_ in (_gs(a.node, m_) or [])) for m_ in others):
+                FINS.add(x_)
     t = lp.test
     tn, tp = t, True
     while isinstance(tn, ast.UnaryOp) and isinstance(tn.op, ast.Not):
@@ -729,6 +742,17 @@ def t3(repo, res, canon, pc, logic):
     g = repo.func('Scheduler._generate_current_schedule')
     gfr = Frame(g)
     gp = cached_paths(g)
+    if not any(ef.loc == QUEUE and ef.kind == 'remove' for p in gp for _e, _efs in effects_along(canon, p.events) for ef in _efs):
+        # the closing block is not in _generate_current_schedule: it may have moved to the caller, on the
+        # other side of the call -- the same analysis is made on allocate_tasks with the call inlined
+        from ..normalize import merged_caller
+        from ..index import FuncInfo
+        mnode = merged_caller(a.cls.node, 'allocate_tasks', '_generate_current_schedule', Canon.NO_INLINE)
+        if mnode is not None:
+            g = FuncInfo(a.module, a.cls, mnode)
+            g.inlined = False
+            gfr = Frame(g)
+            gp = cached_paths(g)
     res.analysed(g, len(gp))
     ok = True
     why = ''
@@ -743,7 +767,8 @@ def t3(repo, res, canon, pc, logic):
             n_close += 1
             must = path_must(logic, p, i, depth=0)
             atoms = {(l.atom, l.pol) for l in must}
-            empty_sched = any(a in (('truthy(schedule)', False), ('empty(schedule)', True)) for a in atoms)
+            empty_sched = any((re.fullmatch(r'truthy\(schedule(__n\d+)?\)', a_) and not pol_) or (
+                re.fullmatch(r'empty\(schedule(__n\d+)?\)', a_) and pol_) for a_, pol_ in atoms)
             fin = any(pol and 'WorkflowStatus.FINISHED ==' in a for a, pol in atoms)
             if not (empty_sched and fin):
                 ok, why = False, ('the workflow is closed (queue.remove) on a path that has not established '
@@ -764,7 +789,8 @@ def t3(repo, res, canon, pc, logic):
                                   'the workflow is done and spins for ever' % verdict.value)
             rels = [x for x in p.events[:i] if stmt_contains(
                 x, lambda y: isinstance(y, ast.Call) and call_name(y) == 'release_batch_resources'
-                and y.args and pc.p(y.args[0], gfr) in ('%s.name' % g.params[1], '%s.id' % g.params[2]))]
+                and y.args and pc.p(y.args[0], gfr) in ['%s.name' % g.params[1]] + (
+                    ['%s.id' % g.params[2]] if len(g.params) > 2 else ['current_plan.id']))]
             if not rels:
                 rel_ok = False
         if marks and not closes:
